@@ -55,9 +55,22 @@ def tcpTypeBody (parts : Array (List UInt8)) (i : Nat) : Cur (Nat ⊕ Nat) := do
     pure (.inr (if v = str "active" then 1 else if v = str "passive" then 2 else if v = str "so" then 3 else 0))
   else pure (.inl (i + 2))
 
+/-- the `raddr <ip> rport <port>` search loop (added on main); state = i; result 0 = none, else rport + 1 -/
+def raddrBody (parts : Array (List UInt8)) (i : Nat) : Cur (Nat ⊕ Nat) := do
+  if i + 3 ≥ parts.size then pure (.inr 0) else
+  let a ← tokAt parts i
+  let c ← tokAt parts (i + 2)
+  if a = str "raddr" ∧ c = str "rport" then
+    let rip ← tokAt parts (i + 1)
+    let rp ← tokAt parts (i + 3)
+    match parseDec 65535 rp with
+    | none => pure (.inr 0)
+    | some rport => pure (.inr (if isIpv4 rip then rport + 1 else 0))
+  else pure (.inl (i + 2))
+
 def toLower (t : List UInt8) : List UInt8 := t.map fun c => if 0x41 ≤ c ∧ c ≤ 0x5A then c + 32 else c
 
-/-- `IceCandidate::from_sdp(sdp)`; digest `[component, priority, port, typ, tcp_type, is_tcp]` -/
+/-- `IceCandidate::from_sdp(sdp)`; digest `[component, priority, port, typ, tcp_type, is_tcp, related port + 1 or 0]` -/
 def candFromSdp (s : List UInt8) : Cur (List Nat) := do
   let parts := (splitWs s).toArray
   alloc (16 * parts.size)
@@ -83,10 +96,9 @@ def candFromSdp (s : List UInt8) : Cur (List Nat) := do
   let typ := if ty = str "host" then 1 else if ty = str "srflx" then 2 else if ty = str "prflx" then 3
     else if ty = str "relay" then 4 else 0
   if typ = 0 then bail "e" else
-  if transport = str "tcp" then
-    let tt ← loopM (tcpTypeBody parts) (parts.size + 1) 8
-    pure [component, priority, port, typ, tt, 1]
-  else pure [component, priority, port, typ, 0, 0]
+  let tt ← (if transport = str "tcp" then loopM (tcpTypeBody parts) (parts.size + 1) 8 else pure 0 : Cur Nat)
+  let rel ← loopM (raddrBody parts) (parts.size + 1) 8
+  pure [component, priority, port, typ, tt, if transport = str "tcp" then 1 else 0, rel]
 
 /-- `next_mid.fetch_max(mid_val.saturating_add(1))` for a remote `a=mid:<u16>`; `checked` = overflow checks of the
 build (dev profile). Before the fix this was `mid_val + 1`: panic when `checked`, wrap to 0 otherwise. -/
